@@ -175,7 +175,7 @@ func (p *c17Prop) Setup(tier string) error {
 
 func (p *c17Prop) Teardown() { _ = p.prov.Close() }
 
-var c17Protos = []string{"mqttv3x1", "mqttv3.1x1", "mqttv5a0", "mqttV3", "", "mqtt", "mqttv3.1", "mqttv3.1.1", "mqttV3.1.1", "mqttv5.0", "mqttV5.0", "http", "mqt", "mqttx", "amqp", "mqttv4.0", "MQTT"}
+var c17Protos = []string{"mqttv3x1", "mqttv3.1x1", "mqttv5a0", "mqttV3", "", "mqtt", "mqttv3.1", "mqttv3.1.1", "mqttV3.1.1", "mqttv5.0", "mqttV5.0", "http", "mqt", "mqttx", "amqp", "mqttv4.0", "MQTT", "foo, bar", "wamp,soap", "foo,", "v10.stomp, v11.stomp", "mqtt, foo", "foo, mqtt"}
 
 func (p *c17Prop) Gen(r *Rng, i int, tier string) interface{} {
 	if i%10 == 9 {
